@@ -648,6 +648,7 @@ func main() {
 	lb.WriteString("\nend CtyModel.Generated\n")
 	writeIfChanged(filepath.Join(*leanDir, "Limits.lean"), lb.String())
 	writeIntBounds(*repo, *leanDir, hdr) // C18: gocty integer bound tables (intbounds.go)
+	fmt.Printf("ctyextract: %d buffer events of cty/json marshal/marshalDynamic\n", writeJsonEmit(*repo, *leanDir, hdr)) // C15 (jsonemit.go)
 
 	// the pure recursive core of cty.Type, translated (translate.go)
 	ndefs := translateTyFns(*repo, *leanDir, hdr)
